@@ -725,6 +725,22 @@ pub fn log_abandon(log: &Log, id: u64) {
     }
 }
 
+/// One logged RPC with a caller-chosen id (so the caller can abandon it and still name it).
+pub async fn rpc_with_id(
+    log: &Arc<Log>,
+    net: &Network,
+    node: usize,
+    peer: PeerId,
+    id: u64,
+    spec: &RpcSpec,
+) -> anyhow::Result<Response<Bytes>> {
+    let req = build_request(id, spec);
+    log_call(log, id, node, &peer, &req);
+    let res = net.rpc(peer, req).await;
+    log_return(log, id, &res);
+    res
+}
+
 /// One logged RPC through `Network::rpc`.
 pub async fn rpc(
     log: &Arc<Log>,
